@@ -17,7 +17,7 @@ func init() {
 		Explanation: "Decides the field-coverage and nil-safety clauses behind 'API versions convert without losing what the user wrote': (R20.1) for each of the four hub/spoke converters (Rollout and BatchRelease, To and From) every field reachable from the source type's Spec and Status (go/types enumeration through structs, pointers and slices of the repository's API packages; exhaustive) is read somewhere in the converter's static call closure, and every field of the destination tree is written, except for a frozen, reasoned list of fields the other version cannot express; " +
 			"(R20.2) the rolling-style annotation is written by ConvertFrom and read case-insensitively by ConvertTo for both kinds; (R20.3) optional pointers of the source (omitempty) are dereferenced only under a nil check — conversion runs on whatever is stored, no validator guarantee applies; " +
 			"(R20.4) sibling agreement of the two TrafficRoutingRef converters: each of Ingress, Gateway and CustomNetworkRefs is converted under its own independent guard in both directions.",
-		NotDecided: "value-level round-trip equality (e.g. weight -> \"20%\" -> 20); semantics of defaults applied by the API server.",
+		NotDecided:  "value-level round-trip equality (e.g. weight -> \"20%\" -> 20); semantics of defaults applied by the API server.",
 		Assumptions: []string{"a field counts as read/written if some FieldAddr/Field of it occurs in the converter or its static callees inside api/"},
 	})
 }
